@@ -543,6 +543,10 @@ class GenericPlainRegistry(Generic[QuantityT, UnitT], metaclass=RegistryMeta):
         target_dict[key] = value
         if casei_target_dict is not None:
             casei_target_dict[key.lower()].add(key)
+        if target_dict is self._units:
+            # The string may have been parsed (e.g. as prefix + unit) and memoised
+            # before this definition existed.
+            self._cache.parse_unit.pop(key, None)
 
     def _add_defaults(self, defaults_definition: DefaultsDefinition) -> None:
         for k, v in defaults_definition.items():
